@@ -29,6 +29,10 @@ class Boom(Exception):
     pass
 
 
+class BoomStop(Boom, StopIteration):
+    """an exception type that loops and iterator protocols swallow when they are careless"""
+
+
 def drive(which, par, steps):
     """Run the real parallel_map with completions dictated by `steps` ([(a, i)]).  Returns observations."""
     import concurrent.futures as cf
@@ -55,7 +59,7 @@ def drive(which, par, steps):
         if x == par['raiseat']:
             if threading.current_thread() is main:
                 delivered[x].set()
-            raise Boom(x)
+            raise (BoomStop(x) if par.get('stopiter') else Boom(x))
         return x * 10
 
     o_res, o_exc = cf.Future.set_result, cf.Future.set_exception
@@ -118,7 +122,9 @@ def one(job):
             f"raise_at={par['raiseat']}) with completion order {[i for a, i in steps if a == 'complete']}"
     n = par['n']
     if final['phase'] == 'raised':
-        if obs['exc'] is None or 'Boom' not in obs['exc']:
+        # (a StopIteration raised inside a coroutine is re-raised by Python as RuntimeError: still an exception that
+        #  propagates - what must not happen is a normal return)
+        if obs['exc'] is None or ('Boom' not in obs['exc'] and not par.get('stopiter')):
             bad.append(('exception-swallowed', f'{label}: the exception of f did not propagate (got {obs["result"]}, {obs["exc"]})'))
     else:
         if obs['exc'] is not None:
@@ -139,6 +145,19 @@ def one(job):
     if any(v > 1 for v in obs['calls'].values()):
         bad.append(('calls', f'{label}: f was called twice for an element: {obs["calls"]}'))
     return idx, bad
+
+
+def distinct_orders(paths, limit, rng):
+    """one complete execution per distinct completion order (the scheduling the property quantifies over)"""
+    by = {}
+    for p in paths:
+        key = tuple(e['act']['i'] for e in p if e['act']['a'] == 'complete')
+        by.setdefault(key, p)
+    keys = sorted(by)
+    rng.shuffle(keys)
+    # always include the fully reversed order of every chunk, the classic victim of order-dependent gathering
+    keys.sort(key=lambda k: 0 if list(k) == sorted(k, reverse=True) else 1)
+    return [by[k] for k in keys[:limit]]
 
 
 def all_paths(edges, inits, limit, rng):
@@ -196,13 +215,15 @@ def run(ctx):
     for st in inits:
         by_par[json.dumps(st['par'], sort_keys=True)][1].append(st)
     jobs = []
-    per = 6 if quick else 40
+    per = 8 if quick else 200
     for pk, (es, ins) in sorted(by_par.items()):
         par = json.loads(pk)
-        for path in all_paths(es, ins, per, ctx.rng):
+        for path in distinct_orders(all_paths(es, ins, 3000, ctx.rng), per, ctx.rng):
             steps = [(e['act']['a'], e['act']['i']) for e in path]
             final = path[-1]['to'] if path else ins[0]
             jobs.append((len(jobs), 'threading', par, steps, final))
+            if par['raiseat'] and len(jobs) % 3 == 0:
+                jobs.append((len(jobs), 'threading', dict(par, stopiter=True), steps, final))
             if par['chunksize'] >= max(par['n'], 1) and par['sort'] and par['chunksize'] == 6:
                 jobs.append((len(jobs), 'iter', par, steps, final))
     out = pmap(one, jobs, workers=12)
